@@ -325,6 +325,26 @@ fn unhex(s: &str) -> Option<Vec<u8>> {
     (0..s.len() / 2).map(|i| u8::from_str_radix(&s[2 * i..2 * i + 2], 16).ok()).collect()
 }
 
+
+/// timer readings: comma-separated hex words; `-` = none; a token `HEX*N` (N decimal) is the reading repeated N times
+/// (a frozen clock: very long stuck runs without megabytes of script)
+fn parse_readings(s: &str) -> Option<Vec<u64>> {
+    if s == "-" { return Some(vec![]); }
+    let mut out = Vec::new();
+    for tok in s.split(',') {
+        match tok.split_once('*') {
+            Some((h, n)) => {
+                let v = u64::from_str_radix(h, 16).ok()?;
+                let n: usize = n.parse().ok()?;
+                if n > (1 << 28) { return None; }
+                out.extend(std::iter::repeat(v).take(n));
+            }
+            None => out.push(u64::from_str_radix(tok, 16).ok()?),
+        }
+    }
+    Some(out)
+}
+
 fn timer_err_name(e: &TimerError) -> &'static str {
     match e {
         TimerError::NoTimer => "NoTimer",
@@ -498,7 +518,7 @@ where
                 // the timer ran dry in the middle of a call (the closure unwound) — property C16 / C14
                 let t = match num(t) { Some(t) => t, None => return "bad-op".into() };
                 self.ensure(t);
-                let rs: Option<Vec<u64>> = readings.split(',').map(|x| u64::from_str_radix(x, 16).ok()).collect();
+                let rs: Option<Vec<u64>> = parse_readings(readings);
                 match (&self.slots[t], rs) {
                     (Slot::Timer(ts), Some(rs)) => { ts.extra.lock().unwrap().extend(rs); "ok".into() }
                     _ => "bad-op".into(),
@@ -617,9 +637,7 @@ where
             }
             ["timer", d, readings] => {
                 let d = match num(d) { Some(d) => d, None => return "bad-op".into() };
-                let rs: Option<Vec<u64>> = if *readings == "-" { Some(vec![]) } else {
-                    readings.split(',').map(|t| u64::from_str_radix(t, 16).ok()).collect()
-                };
+                let rs: Option<Vec<u64>> = parse_readings(readings);
                 match rs {
                     Some(readings) => {
                         self.put(d, Slot::Timer(Arc::new(TimerScript { readings, pos: AtomicUsize::new(0), extra: std::sync::Mutex::new(vec![]) })));
@@ -742,9 +760,9 @@ impl WordHex for u32 { fn hexw(self) -> String { format!("{:08x}", self) } fn on
 impl WordHex for u64 { fn hexw(self) -> String { format!("{:016x}", self) } fn ones() -> Self { u64::MAX } }
 fn core_blocks<C, W>(seed: &[u8], k: usize, mode: &str) -> String
 where
-    C: BlockRngCore<Item = W> + SeedableRng,
+    C: BlockRngCore<Item = W> + SeedableRng + Clone,
     C::Results: AsRef<[W]> + AsMut<[W]> + Default,
-    W: WordHex,
+    W: WordHex + Copy,
 {
     let mut s = C::Seed::default();
     if s.as_mut().len() != seed.len() {
@@ -759,6 +777,17 @@ where
         let buf: &mut C::Results = match mode {
             "same" => &mut shared,
             "dirty" => { for w in fresh.as_mut().iter_mut() { *w = W::ones(); } &mut fresh }
+            // the destination already holds (a function of) what is about to be produced: the block that is due (from a twin
+            // in lockstep), the due block with its first / last word replaced, the block after the due one
+            "due" | "due-first" | "due-last" | "next" => {
+                let mut twin = core.clone();
+                twin.generate(&mut fresh);
+                if mode == "next" { twin.generate(&mut fresh); }
+                let n = fresh.as_ref().len();
+                if mode == "due-first" { fresh.as_mut()[0] = W::ones(); }
+                if mode == "due-last" { fresh.as_mut()[n - 1] = W::ones(); }
+                &mut fresh
+            }
             _ => &mut fresh,
         };
         core.generate(buf);
